@@ -555,7 +555,8 @@ func (i *interpreter) check(cond value, label string) {
 	case *Sym:
 		c = x.T
 	}
-	if i.violated[label] >= i.maxViolPerLabel {
+	vkey := i.violKey(label)
+	if i.violated[vkey] >= i.maxViolPerLabel {
 		// already reported; keep going under the assumption
 		i.sol.Assert(c)
 		if c.IsConst() {
@@ -571,7 +572,7 @@ func (i *interpreter) check(cond value, label string) {
 	case smt.Unsat:
 		i.res.Discharged++
 	case smt.Sat:
-		i.violated[label]++
+		i.violated[vkey]++
 		i.modelViolation("check", label, "")
 	default:
 		i.res.Inconclusive = append(i.res.Inconclusive, "unknown verdict for check "+label)
@@ -768,7 +769,8 @@ func (i *interpreter) onPanic(msg string) {
 	}
 	label := "no-panic"
 	i.res.Checks++
-	if i.violated[label] >= i.maxViolPerLabel {
+	vkey := i.violKey(label)
+	if i.violated[vkey] >= i.maxViolPerLabel {
 		return
 	}
 	r := i.solCheck()
@@ -777,7 +779,7 @@ func (i *interpreter) onPanic(msg string) {
 	}
 	switch r {
 	case smt.Sat:
-		i.violated[label]++
+		i.violated[vkey]++
 		i.modelViolation("panic", label, msg)
 	case smt.Unsat:
 		i.res.Discharged++ // path was dead
@@ -816,4 +818,15 @@ func (i *interpreter) solCheck(assume ...*smt.Term) smt.Result {
 		panic(pathEnd{"solver-dead"})
 	}
 	return r
+}
+
+// violKey: violations are reported once per (label, known-finding class).
+func (i *interpreter) violKey(label string) string {
+	k := label
+	for _, t := range i.ps.tags {
+		if strings.HasPrefix(t, "kf:") {
+			k += "|" + t
+		}
+	}
+	return k
 }
